@@ -898,7 +898,9 @@ class TestSuite(tsdb.Database):
 
         key_names = [f.name for f in source.schema[input_table] if f.is_key]
 
-        for row in source[input_table]:
+        # read all inputs first as flushing the buffer may rewrite the
+        # input table's file while it is being read
+        for row in list(source[input_table]):
             datum = row[index[input_column]]
             keys = [row[index[name]] for name in key_names]
             keys_dict = dict(zip(key_names, keys))
